@@ -257,7 +257,11 @@ REG.add(Contract("get_evaluable_architecture", module=M_PT, view="string",
                  # C13: an invalid request never builds (let alone returns) an architecture
                  ensures_on_raise=["ghost_ctor.calls == old(ghost_ctor).calls"],
                  locals=dict(regex_exclusions="Opt[Bag[Str]]", regex_external_exclusions="Opt[Bag[Str]]"),
-                 ghost_at={"root_as_path = Path(root_path)": [
+                 ghost_at={
+                     # C13 / C08 / C10: no invalid option combination gets past the validation (stated right after the three checks, where the context is
+                     # small, so that a violation is REFUTED with a model and not merely undecided)
+                     "if exclusions:": ["not gea_invalid(exclusions, regex_exclusions, exclude_external_libraries, external_exclusions, regex_external_exclusions)"],
+                     "root_as_path = Path(root_path)": [
                      # proof hints (obligations themselves; stated before the pipeline runs, where the context is small): the local regex_exclusions is the
                      # effective exclusion set, the local regex_external_exclusions the effective external one
                      "not is_none(regex_exclusions)",
